@@ -100,6 +100,8 @@ MUTANTS = [
     ("loader_skip_cycle_check", "parsing/task_index.py", "                if identifier in curr_path:\n                    # The user's dependency graph contains a cycle", "                if False:\n                    # The user's dependency graph contains a cycle", ["C14"]),
     ("loader_visited_on_push", "parsing/task_index.py", "                    if dep in visited_identifiers:\n                        continue\n                    identifiers_to_load.append((dep, 0))", "                    if dep in visited_identifiers or dep in curr_path and False:\n                        continue\n                    visited_identifiers.add(dep)\n                    identifiers_to_load.append((dep, 0))", ["C14"]),
     ("roots_count_once", "parsing/task_index.py", "                    if dep_id in root_candidates:\n                        root_candidates[dep_id] += 1", "                    if dep_id in root_candidates and dep_id in visited:\n                        root_candidates[dep_id] += 1", ["C14"]),
+    ("dequeue_sequential_first", "execution/executor.py", "        if self.has_parallelizable_ops():\n            return self._parallel_ops.popleft()\n        else:\n            return self._sequential_ops.popleft()",
+     "        if len(self._sequential_ops) > 0:\n            return self._sequential_ops.popleft()\n        else:\n            return self._parallel_ops.popleft()", []),
     ("num_tasks_per_dequeue", "execution/planning/planner.py", "                num_tasks_to_run += 1\n", "                num_tasks_to_run += 1 + len(lt.deps) * 0 + (1 if isinstance(lt.task, Group) else 0)\n", ["C02"]),
 ]
 
